@@ -31,6 +31,9 @@ type flagVar struct {
 }
 
 func checkC20(c *Check) {
+	if archSubst != "" {
+		return // cmd/lz4c has no architecture-specific files
+	}
 	c.Explain = "Static rules over cmd/lz4c, loaded from a scratch copy whose go.mod is pointed at the analysed tree (the pinned go.mod resolves the library to release v4.1.19; reported under R20.6): (R20.1) a boolean flag whose usage starts with enable/disable reaches its Option un-negated/negated; (R20.2) the level switch maps k to lz4.Level_k and everything else to Fast; (R20.3) flag variables are read only inside the handler that runs after parsing; (R20.4) each flag flows into the Option its usage names; (R20.5) the output file is created with exactly the input's mode bits, in compress and uncompress; (R20.7) the Writer that receives the options is the one that compresses, on the stdin path and the file path; (R20.8) client typestate: every Apply on the shared Writer/Reader happens in a state that accepts options."
 	c.Uncov = []string{"the file round trip itself (value-level)", "behaviour of the pinned release v4.1.19 that the shipped go.mod selects"}
 	c.Trusted = append(trustedSSA, "scratch module resolution of cmd/lz4c against /repo (replace directive added to a copy of go.mod)")
